@@ -844,7 +844,10 @@ def _compile_module_file(template, text, filename, outputpath, module_writer):
         # avoiding synchronization issues.
         dest, name = tempfile.mkstemp(dir=os.path.dirname(outputpath))
 
-        os.write(dest, source)
+        # os.write() may write less than it was given
+        view = memoryview(source)
+        while view:
+            view = view[os.write(dest, view) :]
         os.close(dest)
         shutil.move(name, outputpath)
 
